@@ -19,6 +19,188 @@ LEVEL = "other"
 LIB = "forc-test/src/lib.rs"
 
 
+_TRANSP = re.compile(r"Clone>::clone$|Deref>::deref$|::try_from$|::try_into$|::expect$|::unwrap$|Try>::branch$|Try::branch$|::from$|::into$|::as_str$|::as_ref$|ToOwned>::to_owned$|ToString>::to_string$")
+_KEEP = re.compile(r"::(par_iter|iter|into_iter|into_par_iter|par_bridge|copied|cloned|by_ref|collect|collect_vec|as_slice|as_ref|deref|to_vec|clone|peekable|fuse)$")
+_FILTER = re.compile(r"::(filter|filter_map|map|flat_map|filter_map_ok|skip|take|skip_while|take_while|step_by|rev|chain|enumerate)$")
+
+
+def _origin(fn, o, depth=24):
+    """(root, fields): follow single-def use/ref/cast and value-preserving calls backwards, collecting the field path read on the way.
+    root is ('param', n), ('call', node) or ('local', n)."""
+    defs = mir.defs_of(fn)
+    fields = []
+    while depth > 0:
+        depth -= 1
+        if "l" not in o:
+            return ("const", o.get("c")), fields
+        fl = [p_[3] for p_ in o.get("p", []) if isinstance(p_, list) and p_[0] == "f"]
+        fields = fl + fields
+        l = o["l"]
+        ds = defs.get(l, [])
+        if not ds and 1 <= l <= fn.nargs:
+            return ("param", l), fields
+        if len(ds) != 1:
+            return ("local", l), fields
+        _, _, k, srcs, node = ds[0]
+        if k in ("use", "ref", "cast") and srcs:
+            o = srcs[0]
+            continue
+        if k == "call":
+            if _TRANSP.search(node.get("rn") or node.get("fp", "")) and srcs:
+                o = srcs[0]
+                continue
+            return ("call", node), fields
+        return ("local", l), fields
+    return ("local", -1), fields
+
+
+def _closure_arg(node):
+    return None
+
+
+def _closure_of(F, fn, call):
+    """The closure (Fn) passed to an iterator adapter call, if any."""
+    defs = mir.defs_of(fn)
+    for a in call.get("a", [])[1:]:
+        if "l" not in a:
+            continue
+        for _, _, k, _, st in defs.get(a["l"], []):
+            if k == "agg" and st["r"].get("closure"):
+                for cid in F.children.get(fn.id, []):
+                    if F.fns[cid].id == st["r"]["closure"] or F.fns[cid].get("f") == st["r"]["closure"]:
+                        return F.fns[cid]
+    return None
+
+
+def _is_test_of(fn, o, item_root):
+    """Is operand `o` the `.kind.test()` of the item whose root is `item_root` (through `as Some.0`)?"""
+    r, fl = _origin(fn, o)
+    if r[0] != "call" or not r[1].get("fp", "").endswith("PkgEntryKind::test"):
+        return False
+    r2, fl2 = _origin(fn, r[1]["a"][0])
+    return r2 == item_root and fl2[-1:] == ["kind"]
+
+
+def _only_tests_for_testness(F, k):
+    """A filter closure that asks nothing but `entry.kind.test()` (keeps exactly the test entries)."""
+    called = [t_.get("fp", "") for _, t_ in k.calls()]
+    own = [x for x in called if not re.match(r"core::|<core::|alloc::|<alloc::|std::|<std::", x) and not re.search(r"^<core::|Option<", x)]
+    return bool(own) and all(x.endswith("PkgEntryKind::test") for x in own)
+
+
+def _walk_stream(F, fn, o, hops=16):
+    """Walk an iterator expression backwards. Returns (verdict, detail, selective) where verdict is
+    'paired' (items are (entry, entry.kind.test()) pairs made by one closure), 'entries' (plain stream over a collection),
+    'zip-mismatch', or 'unknown'; `selective` counts the adapters that drop or reorder items for a reason other than not being a test."""
+    selective = 0
+    while hops > 0:
+        hops -= 1
+        r, fl = _origin(fn, o)
+        if r[0] == "param" and r[1] == 1 and fn.kind == "closure" and fl:
+            # a captured variable: continue in the function that creates this closure
+            parent = None
+            for pf in F.fns.values():
+                if fn.id in F.children.get(pf.id, []):
+                    parent = pf
+            if parent is None:
+                return "unknown", f"captured variable of {fn.name} with no parent", selective
+            nxt = None
+            for _, _, st in parent.stmts():
+                if st["r"]["k"] == "agg" and st["r"].get("closure") and st["r"].get("closure") in (fn.id, fn.get("f")):
+                    nxt = st["r"]["o"][int(fl[0])]
+            if nxt is None:
+                return "unknown", f"closure creation of {fn.name} not found", selective
+            fn, o = parent, nxt
+            continue
+        if r[0] != "call":
+            return "entries", f"{r} {fl}", selective
+        call = r[1]
+        nm = call.get("fp", "")
+        if re.search(r"::zip$", nm):
+            va, da, sa = _walk_stream(F, fn, call["a"][0], hops)
+            vb, db, sb = _walk_stream(F, fn, call["a"][1], hops)
+            if sa != sb:
+                return "zip-mismatch", f"the two zipped streams drop different items ({sa} vs {sb} selective adapters besides the is-a-test filter)", selective
+            if sa and sb:
+                return "unknown", "zip of two streams that are both filtered: equivalence of the filters is not decided", selective
+            return "zip-ok", f"{da} / {db}", selective
+        k = _closure_of(F, fn, call)
+        if re.search(r"::(filter_map|map)$", nm) and k is not None:
+            # does this closure make the pair?
+            pairs = []
+            for _, _, st in k.stmts():
+                if st["r"]["k"] == "agg" and st["r"].get("adt") == "(tuple)" and len(st["r"]["o"]) == 2:
+                    pairs.append(st)
+            if pairs:
+                item = ("param", 2)
+                good = all(_origin(k, st["r"]["o"][0]) == (item, []) and _is_test_of(k, st["r"]["o"][1], item) for st in pairs)
+                if good:
+                    return "paired", k.name, selective
+                return "unknown", f"{k.name} builds a pair that is not (entry, entry.kind.test())", selective
+            if re.search(r"::filter_map$", nm) and not _only_tests_for_testness(F, k):
+                selective += 1
+            o = call["a"][0]
+            continue
+        if re.search(r"::filter$", nm) and k is not None:
+            if not _only_tests_for_testness(F, k):
+                selective += 1
+            o = call["a"][0]
+            continue
+        if _KEEP.search(nm):
+            o = call["a"][0]
+            continue
+        if _FILTER.search(nm):
+            selective += 1
+            o = call["a"][0]
+            continue
+        return "entries", nm, selective
+    return "unknown", "too long", selective
+
+
+def _rule_pairing(rep, F, rt, c, bt):
+    """R3b: the PkgTestEntry (pass condition, span) handed to the executor belongs to the bytecode entry whose offset and name it runs."""
+    b = F.fn("forc_test::execute::TestExecutor::build")
+    idx = {v: int(k) - 1 for k, v in (b.get("vars") or {}).items() if int(k) <= b.nargs}
+    need = ("test_instruction_index", "test_entry", "name")
+    if not all(n in idx for n in need):
+        raise AnalysisError(f"C29 R3b: TestExecutor::build parameters {need} not found ({sorted(idx)})")
+    te, te_f = _origin(c, bt["a"][idx["test_entry"]])
+    nm, nm_f = _origin(c, bt["a"][idx["name"]])
+    of, of_f = _origin(c, bt["a"][idx["test_instruction_index"]])
+    inst = c.name.split("::{closure")[0]
+    why = ""
+    ok = False
+    if nm != of or nm_f[:-1] != of_f[:-1]:
+        why = f"name and instruction offset come from different entries ({nm} {nm_f} vs {of} {of_f})"
+    elif te[0] == "call" and te[1].get("fp", "").endswith("PkgEntryKind::test"):
+        r2, fl2 = _origin(c, te[1]["a"][0])
+        ok = r2 == nm and fl2[:-1] == nm_f[:-2] and fl2[-1:] == ["kind"]
+        why = "test_entry is `.kind.test()` of a different entry than the one whose name/offset are run"
+    elif te[0] == "param" and nm == te and te_f[:1] == ["1"] and nm_f[:1] == ["0"]:
+        # both halves of one stream item: find who makes the items
+        parent = [pf for pf in F.fns.values() if c.id in F.children.get(pf.id, [])]
+        site = None
+        for pf in parent:
+            for _, t_ in pf.calls():
+                k = _closure_of(F, pf, t_)
+                if k is not None and k.id == c.id:
+                    site = (pf, t_)
+        if site is None:
+            raise AnalysisError("C29 R3b: adapter call that receives the per-test closure not found")
+        verdict, detail, _sel = _walk_stream(F, site[0], site[1]["a"][0])
+        if verdict == "paired":
+            ok = True
+        elif verdict == "zip-mismatch":
+            why = f"the (entry, test_entry) items are made by zipping two differently filtered streams: {detail}; under a test filter a test is judged by another test's pass condition"
+        elif verdict == "zip-ok":
+            ok = True
+        else:
+            raise AnalysisError(f"C29 R3b: cannot establish who pairs bytecode entries with their PkgTestEntry ({verdict}: {detail})")
+    else:
+        raise AnalysisError(f"C29 R3b: unrecognised origin of test_entry {te} {te_f} / name {nm} {nm_f}")
+    rep.ob("R3b-test-entry-belongs-to-the-entry-run", inst, ok, c.file, bt["ln"], why)
+
+
 def run(rep):
     rep.explanation = (
         "Decides: the pass/fail verdict is exactly the stated function of (declared expectation, final VM state) on a finite "
@@ -92,6 +274,7 @@ def run(rep):
         others = [t_ for _, t_ in c.calls() if re.search(r"forc_test::execute::TestExecutor::(?!build$|execute$)\w+$", t_.get("fp", ""))]
         rep.ob("R2-executor-not-repointed", c.name.split("::{closure")[0], not others, c.file, others[0]["ln"] if others else c.lo,
                f"the per-test closure calls {others[0].get('fp') if others else ''} on an executor: an executor is built for one test and only executed")
+        _rule_pairing(rep, F, rt, c, bt)
     b = F.fn("forc_test::execute::TestExecutor::build")
     ws = [t_ for _, t_ in b.calls() if (t_.get("fp", "")).endswith("Interpreter::<M, S, Tx, Ecal, V>::with_storage") or "Interpreter" in t_.get("fp", "") and t_.get("fp", "").endswith("with_storage")]
     ok = False
